@@ -21,7 +21,8 @@ MAIN = 'config.yaml'
 V3_HEADER = '--- !<tag:barectf.org,2020/3/config>\n'
 UUID_A = '79e49040-21b5-42d4-a873-677261696e65'
 UUID_B = 'a6c5e1f0-0b7d-4c63-9a3e-2d1f0c9b8a77'
-REPO_BARECTF = '/repo/barectf'
+from common import REPO as _REPO   # honours VERIF_REPO
+REPO_BARECTF = os.path.join(os.path.realpath(_REPO), 'barectf')
 
 
 # ------------------------------------------------------------------ YAML text
